@@ -12,7 +12,7 @@ void call_pubsub_cb(m_mod_t *mod, m_queue_t *evts)
 V_REQUIRES(v_base_ok() && mod == g_mod && V_RW_OK(g_mod, sizeof(m_mod_t)) && g_mod->ctx == g_ctx && V_RW_OK(g_ctx, sizeof(m_ctx_t)))
 V_REQUIRES(evts == g_evq && V_Q_OK(g_evq) && g_mod->recvs == g_recvs && V_S_OK(g_recvs) && (g_recvs->len == 0) == (g_recvs->top == NULL))
 V_REQUIRES(g_mod->hook.on_evt == v_on_evt && (g_recvs->top == NULL || g_recvs->top == (void *)v_become_evt))
-V_REQUIRES(g_mod->stats.recv_msgs < ((uint64_t)1 << 62))
+V_REQUIRES(g_mod->stats.recv_msgs < ((uint64_t)1 << 62) && (g_ctx->curr_mod == NULL || g_ctx->curr_mod == g_mod))
 V_ASSIGNS(g, V_CB_FRAME, g_ctx->curr_mod, g_mod->stats.recv_msgs)
 V_FREES(g_evq)
 /* nothing to deliver: the handler is not called */
@@ -24,7 +24,7 @@ V_ENSURES(V_IMP(V_OLD(g_evq->len) > 0, g.evt_cb_calls == V_OLD(g.evt_cb_calls) +
 /* the module is pinned while user code runs, the pin is dropped afterwards (balanced) */
 V_ENSURES(V_IMP(V_OLD(g_evq->len) > 0, g.ref_calls == V_OLD(g.ref_calls) + 1 && g.ref_arg == (void *)g_mod
                 && g.unref_calls == V_OLD(g.unref_calls) + 1 && g.unref_arg == (void *)g_mod))                                               /*@C04.module-pinned-during-callback*/
-V_ENSURES(V_IMP(V_OLD(g_evq->len) > 0, g_ctx->curr_mod == NULL))                                                                            /*@C15.current-module-cleared-after-callback*/
+V_ENSURES(g_ctx->curr_mod == V_OLD(g_ctx->curr_mod))                                                                                        /*@C15.current-module-restored-after-nested-callback*/
 V_ENSURES(V_IMP(V_OLD(g_evq->len) > 0, g_mod->stats.recv_msgs == V_OLD(g_mod->stats.recv_msgs) + V_OLD(g_evq->len)))                         /*@C02.received-counter-exact*/
 /* the delivered batch is released exactly once, after the handler returned */
 V_ENSURES(g.qfree_calls == V_OLD(g.qfree_calls) + 1 && g.qfree_arg == g_evq)                                                                /*@C04.batch-released-exactly-once*/
